@@ -102,7 +102,7 @@ def support(ctx, cname):
                     stale += _incoherent(ctx, cname, cattr)
             ctx.ob("AGREE-support", site, "%s bin edges depend on the current batch and on the current reference [%s]" % (nm, cname), dx and dr and not stale,
                    ("the edges use cached state that is not refreshed where the reference changes: %s" % "; ".join(stale[:3])) if stale else
-                   "edges must span reference and batch of THIS update: depends on batch=%s, on reference=%s" % (dx, dr), e)
+                   "edges must span reference and batch of THIS update: depends on batch=%s, on reference=%s" % (dx, dr), e, firm=True)
     ctx.anchor(site, "reference and batch histograms built [%s]" % cname, len(bh) == 2, "")
     if len(bh) == 2:
         ok = bh[0].args[1:] == bh[1].args[1:] and _root_attr(bh[0].args[0]) == "reference" and T.mentions(bh[1].args[0], lambda a: a == ("param", "X"))
